@@ -4,7 +4,7 @@
 From Coq Require Import ZArith List Bool.
 From Low Require Import Lib.MachInt Lib.Bits Lib.BitSeq Model.Rank Spec.RankSpec Proofs.RankProofs.
 From Low Require Import Model.Rank32 Model.RankOps Model.BitmapOf Spec.RankLawsSpec Spec.OfQuerySpec
-  Proofs.Rank32Proofs Proofs.RankLaws Proofs.RankIndexLaws Proofs.RankConcat Proofs.RankHistory Proofs.RankCompose.
+  Proofs.Rank32Proofs Proofs.RankLaws Proofs.RankIndexLaws Proofs.RankConcat Proofs.RankHistory Proofs.RankCompose Proofs.RankComplement.
 Import ListNotations.
 Open Scope Z_scope.
 
@@ -236,6 +236,12 @@ Theorem C01_rank_Get1 : forall f ws i r b, words_ok ws -> query f ws i = Some (r
 Proof. exact rank_Get1. Qed.
 Print Assumptions C01_rank_Get1.
 
+(** rank0: the count of 0-bits before [i] = the rank in the complemented bitmap = i - rank1 (op bitmap.Rank/complement) *)
+Theorem C01_rank_complement : forall f f' ws i r b r' b', words_ok ws ->
+  query f ws i = Some (r, b) -> query f' (map not64 ws) i = Some (r', b') -> r + r' = i /\ b + b' = 1.
+Proof. exact rank_complement. Qed.
+Print Assumptions C01_rank_complement.
+
 (** constant bitmaps (the exhaustive sweep of the generator) *)
 Theorem C01_rank_zeros : forall f n i, 0 <= i < 64 * Z.of_nat n -> query f (zeros_bm n) i = Some (0, 0).
 Proof. exact rank_zeros. Qed.
@@ -256,6 +262,7 @@ Example C01_laws_nonvacuous :
   query_parts F128 [5] [2^64 - 1; 6] 130 = Some (67, 1) /\
   hrun (map build [ws; [1; 1; 1]]) [HQ F128 0 130; HQ F128 1 130; HSet 0 1 0; HQ (F64 true) 0 130; HQ F128 1 130]
     = Some [OQ (Some (67, 1)); OQ (Some (3, 0)); OT (Some 4); OQ (Some (3, 1)); OQ (Some (3, 0))] /\
+  query F128 (map not64 ws) 130 = Some (63, 0) /\
   ToArray ws = Some ([0; 2] ++ map Z.of_nat (seq 64 64) ++ [129; 130]) /\ Get1 ws 130 = Some 1.
 Proof. vm_compute. intuition congruence. Qed.
 
